@@ -252,8 +252,18 @@ func TestC14(t *testing.T) {
 		if withBFD {
 			nConns = 4
 		}
+		if withSib {
+			nConns++ // a sibling link has a connection of its own
+		}
 		idle := nConns * cfg.BatchSize
 		for start := time.Now(); ; time.Sleep(2 * time.Millisecond) {
+			// every connection the router has opened gets a receive loop; on a busy machine some start late
+			op.mu.Lock()
+			opened := len(op.conns)
+			op.mu.Unlock()
+			if opened > nConns {
+				nConns, idle = opened, opened*cfg.BatchSize
+			}
 			if _, _, _, out := router.VerifPoolReport(); out >= idle {
 				break
 			}
